@@ -39,6 +39,7 @@ type ssConnectOpts struct {
 	tamperPacket bool
 	issueTicket  bool
 	sendSeed     bool
+	peer         net.Addr // the bridge's address as the client sees it (default 10.0.0.2:443)
 }
 
 type ssWorld struct {
@@ -94,6 +95,9 @@ func (w *ssWorld) connect(o ssConnectOpts) bool {
 	w.nConn++
 	cn := fmt.Sprintf("c%d", w.nConn)
 	link := c.Net.NewLink(cn, "r")
+	if o.peer != nil {
+		link.A.SetPeer(o.peer)
+	}
 	for _, p := range []*simnet.Pipe{link.AB, link.BA} {
 		p.Policy = t.Draw("chunk", simnet.NumChunk)
 		p.Lazy = t.Draw("lazy", 4) == 3
